@@ -44,6 +44,8 @@ SOURCES = [
     ("_incoming", "agent (wave 1)", "confirm", "mutant_results.txt", "{name}-{n}"),
     ("_own", "own", "confirm", "mutant_results.txt", "{name}-{n}"),
     ("_incoming2", "agent (wave 2)", "confirm2", "mutant_results2.txt", "{name}-w2-{n}"),
+    ("_incoming3", "agent (wave 3)", "confirm3", "mutant_results3.txt", "{name}-w3-{n}"),
+    ("_incoming4", "agent (wave 4)", "confirm4", "mutant_results4.txt", "{name}-w4-{n}"),
 ]
 for sub, author, confdir, detfile, fmt in SOURCES:
     conf = load_conf(confdir)
